@@ -593,8 +593,7 @@ pub fn handle(op: &str, a: &[&str]) -> Option<String> {
                 if st == "heap" {
                     if let Some(w) = oracle_eval(&args, &reply) {
                         badc += 1;
-                        // keep the class of the first failure, prefer a non-shift one
-                        if bad.is_none() || (bad.as_deref().map_or(false, |b| b.starts_with("naive-shift-count")) && !w.starts_with("naive-shift-count")) {
+                        if bad.is_none() {
                             bad = Some(format!("{w} prog={}", hex(p)));
                         }
                     }
